@@ -6,7 +6,7 @@ cd /verif || exit 2
 S=${SELFTEST_DIR:-/tmp/gvc-selftest}
 rm -rf $S; mkdir -p $S/out
 git clone -q /repo $S/repo || exit 2
-export GVC_REPO=$S/repo GVC_OUT=$S/out
+export GVC_REPO=$S/repo GVC_OUT=$S/out GVC_NO_REPLAY=1
 sel="$@"; [ -z "$sel" ] && sel=$(ls seeded | grep -E '^C[0-9]+_m[0-9]+$')
 miss=0
 tmp=$(mktemp)
